@@ -78,6 +78,11 @@ func (b *CombinationColexIterator) Next() bool {
 		return b.k == -1
 	}
 
+	if b.k > b.n {
+		//There are no subsets of size k.
+		return false
+	}
+
 	if b.j >= b.k-1 {
 		if b.data[b.k-1] == b.n-1 {
 			return false
@@ -91,6 +96,11 @@ func (b *CombinationColexIterator) Next() bool {
 		b.data[b.j]++
 		b.j--
 		return true
+	}
+
+	if b.data[0] == b.n-b.k {
+		//This is the last subset {n-k, ..., n-1}. Leave it untouched so that further calls also return false.
+		return false
 	}
 
 	for j := 0; j < b.k-1; j++ {
